@@ -114,61 +114,74 @@ Lemma forward_exact_debit_credit c cs k tok fee max exp target fn args user rela
   let recipient := match k with Permissioned => F | Permissionless => relayer end in
   let old := allowance_data (now st) (get_tok st tok) user F in
   let fresh := match k with Permissioned => fst old <? max | Permissionless => true end in
+  let mv := tgt_moves c target fn args in
   (forall t h, balance (get_tok st' t) h =
      balance (get_tok st t) h +
-     (if N.eqb t tok then (if N.eqb h recipient then fee else 0) - (if N.eqb h user then fee else 0) else 0)) /\
+     (if N.eqb t tok then (if N.eqb h recipient then fee else 0) - (if N.eqb h user then fee else 0) else 0) +
+     tgt_delta mv target t h) /\
   (forall t, t_total (get_tok st' t) = t_total (get_tok st t)) /\
   (forall t o s, allowance_data (now st') (get_tok st' t) o s =
-     if N.eqb t tok && N.eqb o user && N.eqb s F
-     then (if fresh then (max - fee, exp) else (fst old - fee, snd old))
-     else allowance_data (now st) (get_tok st t) o s) /\
+     tgt_alw mv target t o s
+       (if N.eqb t tok && N.eqb o user && N.eqb s F
+        then (if fresh then (max - fee, exp) else (fst old - fee, snd old))
+        else allowance_data (now st) (get_tok st t) o s)) /\
   (fresh = true ->
      exists e, In e au /\ en_who e = user /\
        let ap := {| f_contract := tok; f_name := F_APPROVE; f_args := [VA user; VA F; VI max; VI exp] |} in
        (en_root e = ap \/ In ap (en_subs e))) /\
-  now st <= exp /\ now st' = now st.
+  now st <= exp /\ now st' = now st /\
+  (memb target (c_tokens c) = false -> mv = None) /\
+  (forall from to amt sp, mv = Some (from, to, amt, sp) -> 0 <= amt).
 Proof.
-  intros Hm Hwf st H F recipient old fresh. cbn [step_ok] in H.
-  pose proof (forward_spec _ _ _ _ _ _ _ _ _ _ _ _ _ _ _ Hm Hwf H) as P.
-  pose proof (fp_collect _ _ _ _ _ _ _ _ _ _ _ _ _ _ _ P) as C.
+  intros Hm Hwf st H F recipient old fresh mv. cbn [step_ok] in H.
+  destruct (forward_spec _ _ _ _ _ _ _ _ _ _ _ _ _ _ _ Hm Hwf H) as [t1 P].
+  pose proof (fp_pre _ _ _ _ _ _ _ _ _ _ _ _ _ _ _ _ P) as Q.
+  pose proof (fq_collect _ _ _ _ _ _ _ _ _ _ _ _ _ _ Q) as C.
+  pose proof (fp_tpost _ _ _ _ _ _ _ _ _ _ _ _ _ _ _ _ P) as TP.
   assert (Hfresh : fresh = need_approve (approval_of k) (ad (now st) (alw_get (get_tok st tok) user F)) max).
   { unfold fresh, old. rewrite allowance_data_ad. destruct k; reflexivity. }
-  split; [|split; [|split; [|split; [|split]]]].
-  - intros t h. destruct (N.eqb t tok) eqn:E.
+  split; [|split; [|split; [|split; [|split; [|split; [|split]]]]]].
+  - intros t h. change (get_tok st' t) with (get_tokm (toks st') t).
+    rewrite (tp_bal _ _ _ _ _ _ _ TP), mid_get. fold mv. destruct (N.eqb t tok) eqn:E.
     + apply N.eqb_eq in E. subst t. rewrite (cp_bal _ _ _ _ _ _ _ _ _ _ _ _ _ _ C).
       unfold recipient_of, recipient, F. destruct k; lia.
-    + apply N.eqb_neq in E. rewrite (fp_other _ _ _ _ _ _ _ _ _ _ _ _ _ _ _ P) by exact E. lia.
-  - intros t. destruct (N.eq_dec t tok) as [->|Hn].
-    + apply (cp_total _ _ _ _ _ _ _ _ _ _ _ _ _ _ C).
-    + rewrite (fp_other _ _ _ _ _ _ _ _ _ _ _ _ _ _ _ P) by exact Hn. reflexivity.
-  - intros t o s. rewrite (fp_now _ _ _ _ _ _ _ _ _ _ _ _ _ _ _ P). rewrite !allowance_data_ad.
-    destruct (N.eqb t tok) eqn:E; cbn [andb].
-    + apply N.eqb_eq in E. subst t. rewrite (cp_alw _ _ _ _ _ _ _ _ _ _ _ _ _ _ C).
-      fold F. rewrite Hfresh. unfold old. rewrite allowance_data_ad. reflexivity.
-    + apply N.eqb_neq in E. rewrite (fp_other _ _ _ _ _ _ _ _ _ _ _ _ _ _ _ P) by exact E. reflexivity.
+    + lia.
+  - intros t. change (get_tok st' t) with (get_tokm (toks st') t).
+    rewrite (tp_total _ _ _ _ _ _ _ TP), mid_get. destruct (N.eqb t tok) eqn:E; [|reflexivity].
+    apply N.eqb_eq in E. subst t. apply (cp_total _ _ _ _ _ _ _ _ _ _ _ _ _ _ C).
+  - intros t o s. rewrite (fp_now _ _ _ _ _ _ _ _ _ _ _ _ _ _ _ _ P). rewrite !allowance_data_ad.
+    change (get_tok st' t) with (get_tokm (toks st') t).
+    rewrite (tp_alw _ _ _ _ _ _ _ TP), mid_get. fold mv. f_equal.
+    destruct (N.eqb t tok) eqn:E; cbn [andb]; [|reflexivity].
+    apply N.eqb_eq in E. subst t. rewrite (cp_alw _ _ _ _ _ _ _ _ _ _ _ _ _ _ C).
+    fold F. rewrite Hfresh. unfold old. rewrite allowance_data_ad. reflexivity.
   - intros Hf. rewrite Hfresh in Hf. pose proof (cp_auth _ _ _ _ _ _ _ _ _ _ _ _ _ _ C Hf) as A.
     apply covers_ex in A. exact A.
   - apply (cp_exp _ _ _ _ _ _ _ _ _ _ _ _ _ _ C).
-  - apply (fp_now _ _ _ _ _ _ _ _ _ _ _ _ _ _ _ P).
+  - apply (fp_now _ _ _ _ _ _ _ _ _ _ _ _ _ _ _ _ P).
+  - intros Ht. apply tgt_moves_not_token. exact Ht.
+  - apply (tp_amt _ _ _ _ _ _ _ TP).
 Qed.
 
 Lemma forward_target_once c st k tok fee max exp target fn args user relayer au st' ret :
   1 <= min_temp_ttl (c_host c) ->
   wf_call c (Forward k tok fee max exp target fn args user relayer au) = true ->
   step_ok c st (Forward k tok fee max exp target fn args user relayer au) = Ok (st', ret) ->
-  In target (c_targets c) /\
-  (forall g, get_log (logs st') g =
-     if N.eqb g target
-     then get_log (logs st) target ++ [if is_script fn then (fn, args ++ [AI 0]) else (fn, args)]
-     else get_log (logs st) g) /\
-  ret = Z.of_nat (length (get_log (logs st') target)).
+  if memb target (c_tokens c)
+  then (* the target is a fee token: one of the two modelled token functions, no harness target is touched *)
+       tgt_moves c target fn args <> None /\ logs st' = logs st /\ ret = 0
+  else In target (c_targets c) /\
+       (forall g, get_log (logs st') g =
+          if N.eqb g target
+          then get_log (logs st) target ++ [if is_script fn then (fn, args ++ [AI 0]) else (fn, args)]
+          else get_log (logs st) g) /\
+       ret = Z.of_nat (length (get_log (logs st') target)).
 Proof.
   intros Hm Hwf H. cbn [step_ok] in H.
-  pose proof (forward_spec _ _ _ _ _ _ _ _ _ _ _ _ _ _ _ Hm Hwf H) as P.
-  split; [|split].
-  - apply memb_In. apply (fp_target _ _ _ _ _ _ _ _ _ _ _ _ _ _ _ P).
-  - apply (fp_logs _ _ _ _ _ _ _ _ _ _ _ _ _ _ _ P).
-  - apply (fp_ret _ _ _ _ _ _ _ _ _ _ _ _ _ _ _ P).
+  destruct (forward_spec _ _ _ _ _ _ _ _ _ _ _ _ _ _ _ Hm Hwf H) as [t1 P].
+  pose proof (fp_target _ _ _ _ _ _ _ _ _ _ _ _ _ _ _ _ P) as T.
+  destruct (memb target (c_tokens c)); [exact T|].
+  destruct T as [T1 [T2 T3]]. split; [apply memb_In; exact T1|]. split; [exact T2|exact T3].
 Qed.
 
 Lemma step_atomic c st cl :
@@ -226,7 +239,7 @@ Lemma forward_token_allowed c cs tok fee max exp target fn args user relayer au 
   al_count (al st) = 0%N \/ In (Some tok) (enumeration (al st)).
 Proof.
   intros Hm st H. cbn [step_ok] in H.
-  destruct (forward_open _ _ _ _ _ _ _ _ _ _ _ _ _ _ _ Hm H) as [t' [ts3 [ent [tks' [Q _]]]]].
+  destruct (forward_open _ _ _ _ _ _ _ _ _ _ _ _ _ _ _ Hm H) as [t' [ts3 [tks' [l' [Q _]]]]].
   pose proof (cp_allowed _ _ _ _ _ _ _ _ _ _ _ _ _ _ (fq_collect _ _ _ _ _ _ _ _ _ _ _ _ _ _ Q)) as A.
   cbn [al_of] in A. unfold is_allowed in A.
   destruct (N.eqb (al_count (al st)) 0) eqn:Ec; [left; apply N.eqb_eq; exact Ec|right].
